@@ -78,12 +78,13 @@ theorem permB_sound : ∀ (as bs : List Item), permB as bs = true → ValSimP (a
 
 def strOKB (a b : Str) (subs : List Script) : Bool :=
   subs.all (fun s => (classifyChar a b s).isSome) && sideChars true a b subs == a && sideChars false a b subs == b
+    && a != b
 
 theorem strOKB_sound {a b : Str} {subs : List Script} (h : strOKB a b subs = true) : StrOK a b subs := by
-  simp only [strOKB, Bool.and_eq_true, List.all_eq_true, beq_iff_eq] at h
-  refine ⟨?_, h.1.2, h.2⟩
+  simp only [strOKB, Bool.and_eq_true, List.all_eq_true, beq_iff_eq, bne_iff_ne, ne_eq] at h
+  refine ⟨?_, h.1.1.2, h.1.2, h.2⟩
   intro s hs
-  exact Option.isSome_iff_exists.1 (h.1.1 s hs)
+  exact Option.isSome_iff_exists.1 (h.1.1.1 s hs)
 
 def keyOKB (fk tk : Str) (ke : Script) : Bool :=
   (ke.kind == .match_ || ke.kind == .str) && (ke.cost != 0 || fk == tk) &&
